@@ -203,6 +203,8 @@ func (b *ByteSlice) Compare(other Object) (int, error) {
 		return bytes.Compare(b.value, other.value), nil
 	case *String:
 		return bytes.Compare(b.value, []byte(other.value)), nil
+	case *Buffer:
+		return bytes.Compare(b.value, other.value.Bytes()), nil
 	default:
 		return 0, errz.TypeErrorf("type error: unable to compare byte_slice and %s", other.Type())
 	}
